@@ -14,7 +14,7 @@ use std::path::{Path, PathBuf};
 
 const WRONG_SHAPE: &[&[u8]] = &[
     b"[]", b"3", b"\"text\"", b"null", b"true", b"{\"a\":1}", b"{\"a\":{\"b\":\"c\"}}", b"{\"a\":null}", b"{\"a\":[\"b\"]}",
-    b"{a:b}", b"{\"a\":\"b\",}", b"\xff\xfe{\"a\":\"b\"}", b"\xef\xbb\xbf{\"a\":\"b\"}", b"{\"a\":\"\xff\"}", b"[{\"a\":\"b\"}]", b"   ",
+    b"<DIR>", b"{a:b}", b"{\"a\":\"b\",}", b"\xff\xfe{\"a\":\"b\"}", b"\xef\xbb\xbf{\"a\":\"b\"}", b"{\"a\":\"\xff\"}", b"[{\"a\":\"b\"}]", b"   ",
 ];
 const EMPTY_ENTRIES_SEL: &[&str] = &["{\"as\":\"\"}", "{\"\":\"x\"}", "{\"\":\"\"}", "{\"a\":\"\",\"as\":\"\",\"amar\":\"\"}", "{}"];
 const EMPTY_ENTRIES_AC: &[&str] = &["{\"as\":\"\"}", "{\"\":\"x\"}", "{\"\":\"\"}", "{\"a\":\"\",\"as\":\"\",\"amar\":\"\"}", "{}"];
@@ -90,6 +90,7 @@ impl Replayer {
 
     fn put(&self, path: &Path, state: &str, variant: usize, is_sel: bool, torn: &[u8]) {
         let _ = std::fs::remove_file(path);
+        let _ = std::fs::remove_dir_all(path);
         match state {
             "absent" => {}
             "valid" => std::fs::write(path, if is_sel { VALID_SEL } else { VALID_AC }).unwrap(),
@@ -99,7 +100,14 @@ impl Replayer {
                 let k = 1 + variant % (src.len() - 1);
                 std::fs::write(path, &src[..k]).unwrap();
             }
-            "wrongshape" => std::fs::write(path, WRONG_SHAPE[variant % WRONG_SHAPE.len()]).unwrap(),
+            "wrongshape" => {
+                let doc = WRONG_SHAPE[variant % WRONG_SHAPE.len()];
+                if doc == b"<DIR>" {
+                    std::fs::create_dir_all(path).unwrap(); // not a file at all: a directory sits at the path
+                } else {
+                    std::fs::write(path, doc).unwrap()
+                }
+            }
             "emptyentries" => {
                 let c = if is_sel { EMPTY_ENTRIES_SEL } else { EMPTY_ENTRIES_AC };
                 std::fs::write(path, c[variant % c.len()]).unwrap()
@@ -240,7 +248,8 @@ impl Replayer {
                                     return;
                                 }
                                 // a completed save leaves a loadable file
-                                if st["dir"] == "ok" {
+                                // (if something that is not a file sits at the store's path the save cannot complete either)
+                                if st["dir"] == "ok" && !selp(&home).is_dir() {
                                     let ok = std::fs::read(selp(&home)).ok().and_then(|b| serde_json::from_slice::<std::collections::HashMap<String, String>>(&b).ok()).is_some();
                                     if !ok {
                                         self.rep.violation("fault", &format!("step {} (commit): the store file is not a JSON object of strings after a completed save", i), case(i));
